@@ -504,6 +504,7 @@ class HostDictCallable(tae.HostObject):
         for k, shape in self.shapes.items():
             base = STensor.symbols(f"net_{k}_", shape)
             out[k] = base.mul(args[0]) if args and isinstance(args[0], (STensor, Rat, int, Fraction)) else base
+        self.last = out  # the tensors handed out by the most recent call (identity is checked by T20.generic-leaf)
         return out
 
 
@@ -625,3 +626,47 @@ def run_composite_histories(ctx: Ctx) -> None:
                                f"inverse ({via}) taken before does not invert it (its members evaluate stale parameters)")
         return True, ""
     _guard(ctx, "T6x.linked-inverse", "generic[callable]", fGI, "linked inverse of GenericSpatialTransform", th_link_generic)
+
+
+def run_generic_leaf(ctx: Ctx) -> None:
+    """GenericSpatialTransform driven by a network: the components use the predicted tensors themselves (no re-wrapping as Parameter)."""
+    prog = ctx.prog
+    G = "deepali.spatial.generic"
+    fU = prog.func(G, "GenericSpatialTransform.update")
+    fI = prog.func(G, "GenericSpatialTransform.__init__")
+    ctx.fn(fU)
+    ctx.fn(fI)
+    ctx.rule("T20.generic-leaf", "GenericSpatialTransform whose parameters are predicted by a callable, or given with data_(dict): after update() "
+                                 "every component (affine parts and the non-rigid part) holds the very tensor it was given — same storage, not a "
+                                 "torch.nn.Parameter wrapped around it (a Parameter is a new autograd leaf: the producer of the values would get "
+                                 "no gradient)")
+    for model in ("Affine o SVF", "DDF o Affine", "SVF", "Affine"):
+        def th(model=model):
+            env = TEnv(ctx, 2)
+            it = env.it
+            cfg = Obj(prog.cls(G, "TransformConfig"))
+            cfg.attrs.update({"transform": model, "affine_model": "TS", "rotation_model": "ZXZ", "control_point_spacing": 1,
+                              "scaling_and_squaring_steps": 1, "flip_grid_coords": False})
+            probe = it.new(prog.cls(G, "GenericSpatialTransform"), env.grid, params=False, config=cfg)
+            shapes = {}
+            for name, child in probe.attrs["_modules"]["_transforms"].items() if hasattr(probe.attrs["_modules"].get("_transforms"), "items") else []:
+                shapes[name] = [1] + list(it.getattr(child, "data_shape"))
+            if not shapes:
+                raise AnalysisError("generic-leaf: could not enumerate the components of GenericSpatialTransform")
+            net = HostDictCallable(shapes)
+            t = it.new(prog.cls(G, "GenericSpatialTransform"), env.grid, params=net, config=cfg)
+            it.method(t, "condition_", Rat.atom("c0"))
+            it.method(t, "update")
+            for name, child in t.attrs["_modules"]["_transforms"].items():
+                p = child.attrs.get("params", child.attrs.get("_parameters", {}).get("params"))
+                if p is None:
+                    p = child.attrs.get("_buffers", {}).get("params", child.attrs.get("_parameters", {}).get("params"))
+                if isinstance(p, MM.Param):
+                    return False, (f"{model}: component '{name}' ({child.cls.name}) holds the predicted values wrapped in a new "
+                                   f"torch.nn.Parameter (fresh autograd leaf)")
+                used = it.method(child, "data")
+                pred = net.last.get(name) if hasattr(net, "last") else None
+                if pred is not None and used.store is not pred.store:
+                    return False, f"{model}: component '{name}' uses a copy of the predicted tensor, not the tensor itself"
+            return True, ""
+        _guard(ctx, "T20.generic-leaf", model, fU, f"transform={model!r} params=callable", th)
